@@ -214,6 +214,47 @@ def run(chk):
         exprs.append(f"if eqb_ascii_list (load_name {ascii_list(mod + '.py')}) {ascii_list(mod)} then [1] else [0]")
         meta.append((case, [1] if got == mod else [0], "exact"))
 
+    # identifiers that are also the names of modules that are already imported, and the same identifier in two directories:
+    # the function must come from THAT file (here nothing is removed from sys.modules beforehand)
+    for mod in ("json", "string", "abc"):
+        path = os.path.join(tmp, mod + ".py")
+        open(path, "w").write(f"def {mod}(x, y, **kwargs):\n    return 1000 * x - y\n")
+        case = {"helper": "load_functional_constraints", "file": mod + ".py", "note": "identifier equals an imported module's name"}
+        chk.case(case)
+        chk.count("loader_imported_name")
+        saved = sys.modules.get(mod)
+        try:
+            fn = K.load_functional_constraints(path)
+            got = fn(3, 2) if callable(fn) else "not callable"
+        except Exception as e:
+            got = "EXC " + type(e).__name__ + ": " + str(e)[:60]
+        finally:
+            while tmp in sys.path:
+                sys.path.remove(tmp)
+            if saved is not None:
+                sys.modules[mod] = saved
+        if got != 2998:
+            chk.violation("impl", "loader-wrong-module", f"load_functional_constraints('<dir>/{mod}.py') did not return the function defined in that file: {got}", {**case, "observed": str(got)})
+    d1, d2 = os.path.join(tmp, "dir_a"), os.path.join(tmp, "dir_b")
+    os.makedirs(d1, exist_ok=True), os.makedirs(d2, exist_ok=True)
+    open(os.path.join(d1, "dupname.py"), "w").write("def dupname(x, y, **kwargs):\n    return x - y\n")
+    open(os.path.join(d2, "dupname.py"), "w").write("def dupname(x, y, **kwargs):\n    return y - x\n")
+    case = {"helper": "load_functional_constraints", "file": "dir_a/dupname.py then dir_b/dupname.py"}
+    chk.case(case)
+    try:
+        fa = K.load_functional_constraints(os.path.join(d1, "dupname.py"))
+        fb = K.load_functional_constraints(os.path.join(d2, "dupname.py"))
+        got = (fa(5, 2), fb(5, 2))
+    except Exception as e:
+        got = "EXC " + type(e).__name__ + ": " + str(e)[:60]
+    finally:
+        for d in (d1, d2):
+            while d in sys.path:
+                sys.path.remove(d)
+        sys.modules.pop("dupname", None)
+    if got != (3, -3):
+        chk.violation("impl", "loader-wrong-module", f"two files named dupname.py in different directories: the second load returned {got} instead of each file's own function (3, -3)", {**case, "observed": str(got)})
+
     # ---------------- E. user-defined constraints
     for _ in range(200 if thorough else 50):
         grid = rng.random() < 0.5
